@@ -187,7 +187,12 @@ fn classify(sc: &Scenario, msg: &str) -> Verdict {
             Body::Chan(ref c) if c.asyn => v.push(("C06".to_string(), "deadlock".to_string(), m)),
             Body::Chan(_) => v.push(("C05".to_string(), "deadlock".to_string(), m)),
             Body::Bcast(ref bc) => {
-                v.push((if bc.asyn { "C06" } else { "C05" }.to_string(), "deadlock".to_string(), m.clone()));
+                if bc.mix != 0 {
+                    v.push(("C05".to_string(), "deadlock".to_string(), m.clone()));
+                    v.push(("C06".to_string(), "deadlock".to_string(), m.clone()));
+                } else {
+                    v.push((if bc.asyn { "C06" } else { "C05" }.to_string(), "deadlock".to_string(), m.clone()));
+                }
                 v.push(("C07".to_string(), "deadlock".to_string(), m));
             }
             Body::Lock(_) => v.push(("C10".to_string(), "deadlock".to_string(), m)),
